@@ -221,22 +221,29 @@ def oracle_c20(series, nii, order):
     if st is not None:
         from dcmstack import dcm_time_to_sec
         S = series['S']
-        by_pos = {}
-        for f in series['files']:
-            if f['t'] == 0 and f['v'] == 0:
-                full, exact = index_of(series, f, nii)
-                by_pos[full[slc]] = f
-        times = {k: dcm_time_to_sec(f['meta']['AcquisitionTime']) for k, f in by_pos.items() if 'AcquisitionTime' in f['meta']}
-        if len(times) != S:
-            fails.append('slice times recorded although not every slice has an acquisition time')
-        elif set(times) != set(range(S)):
-            fails.append('the source slices of the first volume fall on positions %s of the slice axis recorded in the header, not on 0..%d'
-                         % (sorted(times), S - 1))
-        else:
-            t0 = min(times.values())
-            for k in range(S):
-                if st[k] is None or abs(float(st[k]) - (times[k] - t0)) > 1e-3:
-                    fails.append('slice time of output slice %d is %s, its source slice was acquired %.6f s after the first' % (k, st[k], times[k] - t0))
+        # every volume: the recorded time of output slice k is the acquisition time of the source
+        # slice lying there, relative to the earliest slice of that volume
+        for (tt, vv) in sorted({(f['t'], f['v']) for f in series['files']}):
+            by_pos = {}
+            for f in series['files']:
+                if f['t'] == tt and f['v'] == vv:
+                    full, exact = index_of(series, f, nii)
+                    by_pos[full[slc]] = f
+            times = {k: dcm_time_to_sec(f['meta']['AcquisitionTime']) for k, f in by_pos.items() if 'AcquisitionTime' in f['meta']}
+            if len(times) != S:
+                fails.append('slice times recorded although not every slice has an acquisition time')
+                break
+            elif set(times) != set(range(S)):
+                fails.append('the source slices of volume (t=%d, v=%d) fall on positions %s of the slice axis recorded in the header, not on 0..%d'
+                             % (tt, vv, sorted(times), S - 1))
+                break
+            else:
+                t0 = min(times.values())
+                bad = [k for k in range(S) if st[k] is None or abs(float(st[k]) - (times[k] - t0)) > 1e-3]
+                if bad:
+                    k = bad[0]
+                    fails.append('slice time of output slice %d is %s; in volume (t=%d, v=%d) its source slice was acquired %.6f s after the first of that volume'
+                                 % (k, st[k], tt, vv, times[k] - t0))
                     break
     return fails
 
@@ -286,7 +293,12 @@ def conv_round(rep, pid, r, tier):
     n = {'quick': 40, 'thorough': 800}[tier]
     norders = {'quick': 4, 'thorough': 49}[tier]
     for ci in range(n):
-        series = G.gen_series(r, tier, meta_modes=(pid == 'C02'))
+        if pid == 'C20' and ci % 5 == 4:
+            # slice timing that is consistent between the first and the last volume only
+            series = G.gen_series(r, tier, S=r.choice([2, 3]), T=r.choice([3, 3, 2]), V=r.choice([1, 1, 2]),
+                                  acq='one_inconsistent')
+        else:
+            series = G.gen_series(r, tier, meta_modes=(pid == 'C02'))
         order_files = list(range(len(series['files'])))
         r.shuffle(order_files)
         try:
@@ -753,6 +765,55 @@ def shape_correspondence(rep, r, tier):
                                       'model %s vs implementation %s' % (json.dumps(a)[:200], json.dumps(got)[:200])))
 
 
+def fill_correspondence(rep, r, tier):
+    """get_data / get_affine vs the Lean model `stackData` / `stackAff` (Model/Wrap.lean): the fill
+    of the 5-D array from the sorted files, the trimming of unused axes, the slice column of the
+    affine.  Affines go to the model on the half-integer lattice (entries times two); series whose
+    geometry is not on that lattice (oblique) are counted as skipped."""
+    from . import check_wrapcorr as WC
+    drv = core.Driver()
+    n = {'quick': 40, 'thorough': 600}[tier]
+    reqs, meta = [], []
+    co = rep.corr.setdefault('stack_fill', {'cases': 0, 'agree': 0, 'disagree': 0, 'skipped': 0})
+    for ci in range(n):
+        series = G.gen_series(r, tier, ordering=r.choice(['explicit', 'explicit_tv', 'explicit']))
+        order = list(range(len(series['files'])))
+        r.shuffle(order)
+        st, status = stack_from(series, series['files'], order)
+        if any(s != 'ok' for s in status):
+            continue
+        try:
+            shape = quiet(st.get_shape)
+            files = [fi[0].nii_img for fi in st._files_info]          # canonical order after get_shape
+            farrs = [WC.int_data(np.asanyarray(im.dataobj)) for im in files]
+            faffs = [WC.int_aff(im.affine) for im in files]
+            data = quiet(st.get_data)
+            aff = quiet(st.get_affine)
+        except Exception as e:
+            rep.failure('query on a complete grid raised %r' % e, {'tag': 'stack:fill:raise', 'suite': 'stack', 'series': series})
+            continue
+        got = {'arr': WC.int_data(data), 'aff': WC.int_aff(aff)}
+        if any(a is None for a in farrs) or any(a is None for a in faffs) or got['arr'] is None or got['aff'] is None:
+            co['skipped'] += 1
+            rep.count('fill_corr/off_lattice')
+            continue
+        dims = list(shape) + [1] * (5 - len(shape))
+        reqs.append({'op': 'stack_fill', 'files': farrs, 'affs': faffs, 'rows': dims[0], 'cols': dims[1],
+                     'S': dims[2], 'T': dims[3], 'V': dims[4]})
+        meta.append((series, got))
+        rep.evaluations += 1
+        rep.count('fill_corr/%dD' % len(shape))
+        rep.nontriv(['fill_corr', ci, series['orient'], dims])
+    for a, (series, got) in zip(drv.ask(reqs), meta):
+        co['cases'] += 1
+        if 'err' not in a and a['arr'] == got['arr'] and a['aff'] == got['aff']:
+            co['agree'] += 1
+        else:
+            co['disagree'] += 1
+            rep.disagreements.append(('stack_fill', 'stack:fill', {'series': {k: v for k, v in series.items() if k != 'files'}},
+                                      'model %s vs implementation %s' % (json.dumps(a)[:300], json.dumps(got)[:300])))
+
+
 def guess_correspondence(rep, r, tier):
     """get_shape without ordering keys: which key of sort_guesses is picked, acceptance and dims --
     model (Stk.guessShape) vs implementation, on grids, sub-multisets and decoy keys"""
@@ -923,7 +984,8 @@ THEOREMS = {
             'C01.fill_index_injective', 'C01.convert_total', 'C01.convert_total_4d', 'C01.convert_total_3d', 'C01.convert_total_5d_t1', 'C01.convert_end_to_end'],
     'C02': ['C02.fill_index_in_range', 'C02.fill_index_injective', 'C02.flipped_data_same_files',
             'C02.canonical_order_unique', 'C02.reorient_transform_maps_back', 'C02.order_change_is_signed_perm',
-            'C02.reorder_shape_perm', 'C02.axes_follow_permutation', 'C02.reordered_affine_orientation'],
+            'C02.reorder_shape_perm', 'C02.axes_follow_permutation', 'C02.reordered_affine_orientation',
+            'C02.stack_fill', 'C02.stack_data_trim', 'C02.stack_affine'],
     'C11': ['C11.getShape_ok_iff', 'C11.accept_count', 'C11.accept_positions', 'C11.accept_vector_blocks',
             'C11.accept_spacing', 'C11.refuse_empty', 'C11.refuse_not_factoring', 'C11.refuse_spacing',
             'C11.refuse_vector_count', 'C11.refuse_bad_volume', 'C11.f13_accepted', 'C11.f13_mixes_time',
@@ -1075,6 +1137,8 @@ def main(pid, tier):
         history_round(rep, r, tier)
         history_correspondence(rep, r, tier)
         shape_correspondence(rep, r, tier)
+    if pid == 'C02':
+        fill_correspondence(rep, r, tier)
     if pid in ('C01', 'C02'):
         shape_correspondence(rep, r, tier)
         history_correspondence(rep, r, tier)
